@@ -51,6 +51,16 @@ type scen struct {
 	// an index listed twice in Again contributes a second time); the accepted ones form the DKG.
 	Lens  []int `json:"lens,omitempty"`
 	Again []int `json:"again,omitempty"`
+	// Reagg, when set, makes this a "re-aggregation" scenario: every party's DKG object is aggregated
+	// for the first N parties, then the set changes (ops) and the SAME objects are aggregated again;
+	// they must agree with objects built freshly from the final set.
+	Reagg []reop `json:"reagg,omitempty"`
+}
+
+// reop is one membership change before the second aggregation.
+type reop struct {
+	Op string `json:"op"` // drop | replace (the party draws a new polynomial) | add (a new party joins)
+	P  int    `json:"p"`  // party index (drop, replace)
 }
 
 type outcome struct {
@@ -151,6 +161,9 @@ func run(s scen) (res *outcome) {
 func run1(s scen) *outcome {
 	if len(s.Lens) > 0 {
 		return runContribute(s)
+	}
+	if len(s.Reagg) > 0 {
+		return runReagg(s)
 	}
 	o := &outcome{descs: map[string]string{}, hist: map[string]int{}}
 	w := world(s.T, s.N, s.WorldSeed)
@@ -345,7 +358,7 @@ func run1(s scen) *outcome {
 				adm = append(adm, zx(partyHex(key)))
 			}
 			sort.Strings(adm)
-			o.coq = append(o.coq, fmt.Sprintf("(Build_vzc_case (%s) (%s) (%s) (%s) (%s) (%s) (%s) (%s) (%s) (%s) (%s) (%s) ([]))",
+			o.coq = append(o.coq, fmt.Sprintf("(Build_vzc_case (%s) (%s) (%s) (%s) (%s) (%s) (%s) (%s) (%s) (%s) (%s) (%s) ([]) ([]))",
 				vh.Nat(s.T), vh.Z(rn), vh.Z(int64(curTC)), vh.Z(s.PrevSeed), vh.Str(msg), vh.List(mem), zx(w.GSK.GetHexString()),
 				vh.List(coqEvs), vh.List(coqOks), vh.List(adm), hints, seedTerm))
 		}
@@ -456,7 +469,7 @@ func runContribute(s scen) *outcome {
 			contribute(j)
 		}
 	}
-	o.coq = append(o.coq, fmt.Sprintf("(Build_vzc_case (%s) (0) (0) (0) (%s) ([]) (0) ([]) ([]) ([]) ([]) (None) (%s))",
+	o.coq = append(o.coq, fmt.Sprintf("(Build_vzc_case (%s) (0) (0) (0) (%s) ([]) (0) ([]) ([]) ([]) ([]) (None) (%s) ([]))",
 		vh.Nat(T), vh.Str("000"), vh.List(coqM)))
 
 	// what the chain recorded defines the DKG instance
@@ -542,6 +555,205 @@ func runContribute(s scen) *outcome {
 			o.fail("seed-depends-on-share-subset", fmt.Sprintf("verified shares of miners %v give seed %d, of miners %v seed %d (T=%d, %d qualified)", firstSet, first, set, sd, T, len(qual)))
 		}
 	}
+	return o
+}
+
+// ---------- one DKG object aggregated twice with different sets vs a fresh object ----------
+
+func runReagg(s scen) *outcome {
+	o := &outcome{descs: map[string]string{}, hist: map[string]int{}}
+	T, N := s.T, s.N
+	type party struct {
+		id     string
+		pid    bls.PartyID
+		dealer *bls.DKG // holds the party's polynomial
+		reused *bls.DKG // the object that lives through both aggregations
+		in     bool
+	}
+	var ps []*party
+	mk := func(j int, gen int) *party {
+		id := encryption.Hash(fmt.Sprintf("reagg %d party %d", s.WorldSeed, j))
+		d := bls.MakeDKG(T, N, id)
+		return &party{id: id, pid: bls.ComputeIDdkg(id), dealer: d, reused: bls.MakeDKG(T, N, id), in: true}
+	}
+	mpkMapOf := func() map[bls.PartyID][]bls.PublicKey {
+		m := map[bls.PartyID][]bls.PublicKey{}
+		for _, p := range ps {
+			if p.in {
+				m[p.pid] = p.dealer.GetMPKs()
+			}
+		}
+		return m
+	}
+	aggregate := func(get func(*party) *bls.DKG, force bool) {
+		mm := mpkMapOf()
+		for _, p := range ps {
+			if !p.in {
+				continue
+			}
+			d := get(p)
+			for _, from := range ps {
+				if !from.in {
+					continue
+				}
+				sh, err := from.dealer.ComputeDKGKeyShare(p.pid)
+				if err != nil {
+					panic(err)
+				}
+				if !d.ValidateShare(mm[from.pid], sh) {
+					o.fail("honest-share-rejected", "a share of the final set does not validate")
+				}
+				if err := d.AddSecretShare(from.pid, sh.GetHexString(), force); err != nil {
+					panic(err)
+				}
+			}
+			if err := d.AggregatePublicKeyShares(mm); err != nil {
+				panic(err)
+			}
+			d.AggregateSecretKeyShares()
+		}
+	}
+	var oldSig = map[int]string{}
+	msg := fmt.Sprintf("%v%v%v", s.Round, s.Timeout, strconv.FormatInt(s.PrevSeed, 16))
+	var fresh = map[*party]*bls.DKG{}
+	cryptoh.WithRand(s.WorldSeed, func() {
+		for j := 0; j < N; j++ {
+			ps = append(ps, mk(j, 0))
+		}
+		aggregate(func(p *party) *bls.DKG { return p.reused }, false)
+		for j, p := range ps {
+			oldSig[j] = p.reused.Sign(msg).GetHexString() // a share under the key of the first aggregation
+		}
+		// the set changes (view change Wait step retried): drop / replace / add
+		var dropped []string
+		for _, op := range s.Reagg {
+			switch op.Op {
+			case "drop":
+				if op.P < len(ps) && ps[op.P].in {
+					ps[op.P].in = false
+					dropped = append(dropped, ps[op.P].id)
+				}
+			case "replace":
+				if op.P < len(ps) && ps[op.P].in {
+					ps[op.P].dealer = bls.MakeDKG(T, N, ps[op.P].id)
+				}
+			case "add":
+				ps = append(ps, mk(len(ps), 1))
+			}
+			o.hist["reagg-"+op.Op]++
+		}
+		for _, p := range ps {
+			if p.in {
+				p.reused.DeleteFromSet(dropped)
+			}
+		}
+		aggregate(func(p *party) *bls.DKG { return p.reused }, true)
+		// fresh objects from the final set (what SetDKGSFromStore builds)
+		for _, p := range ps {
+			if p.in {
+				fresh[p] = bls.MakeDKG(T, N, p.id)
+			}
+		}
+		aggregate(func(p *party) *bls.DKG { return fresh[p] }, false)
+	})
+	var final []*party
+	for _, p := range ps {
+		if p.in {
+			final = append(final, p)
+		}
+	}
+	if len(final) < T {
+		o.hist["reagg-fewer-than-t"]++
+		return o
+	}
+	// per-party keys, verdicts and seeds of the reused objects against the fresh ones
+	var coqR []string
+	for _, p := range final {
+		if !p.reused.Si.IsEqual(&fresh[p].Si) {
+			o.fail("reaggregated-dkg-secret-differs-from-fresh", fmt.Sprintf("party %s..: the aggregated secret of the reused object differs from a fresh object's", p.id[:8]))
+		}
+	}
+	for vi, v := range final {
+		for qi, q := range ps {
+			pkR, pkF := v.reused.GetPublicKeyByID(q.pid), fresh[v].GetPublicKeyByID(q.pid)
+			if !pkR.IsEqual(&pkF) {
+				o.fail("reaggregated-dkg-key-share-differs-from-fresh", fmt.Sprintf("view of party %d: the public key share held for party %d (in final set: %v) differs between the object aggregated twice and a fresh object", vi, qi, q.in))
+			}
+			// genuine share of the final DKG, and a share under the key of the first aggregation
+			shares := map[string]string{"old": oldSig[qi]}
+			if q.in {
+				shares["genuine"] = fresh[q].Sign(msg).GetHexString()
+			}
+			for kind, hx := range shares {
+				if hx == "" {
+					continue
+				}
+				var sg bls.Sign
+				if err := sg.SetHexString(hx); err != nil {
+					panic(err)
+				}
+				vr, vf := v.reused.VerifySignature(&sg, msg, q.pid), fresh[v].VerifySignature(&sg, msg, q.pid)
+				o.hist[fmt.Sprintf("reagg-verdict-%s-%v", kind, vf)]++
+				if vr != vf {
+					o.fail("reaggregated-dkg-verdict-differs-from-fresh", fmt.Sprintf("view of party %d: a %s share of party %d is judged %v by the object aggregated twice and %v by a fresh object", vi, kind, qi, vr, vf))
+				}
+				if kind == "genuine" && !vf {
+					o.fail("share-of-qualified-miner-rejected", fmt.Sprintf("fresh view %d rejects the genuine share of party %d", vi, qi))
+				}
+			}
+		}
+		// seed from the first T shares each object counts
+		seedVia := func(d *bls.DKG) (int64, bool) {
+			var sg, from []string
+			for qi, q := range ps {
+				cands := []string{oldSig[qi]}
+				if q.in {
+					cands = append(cands, fresh[q].Sign(msg).GetHexString())
+				}
+				for _, hx := range cands {
+					var x bls.Sign
+					if hx == "" || x.SetHexString(hx) != nil || !d.VerifySignature(&x, msg, q.pid) {
+						continue
+					}
+					sg = append(sg, hx)
+					from = append(from, q.pid.GetHexString())
+					break
+				}
+				if len(sg) == T {
+					break
+				}
+			}
+			if len(sg) < T {
+				return 0, false
+			}
+			gs, err := d.CalBlsGpSign(sg, from)
+			if err != nil {
+				return 0, false
+			}
+			return seedOf(gs.GetHexString()), true
+		}
+		sr, okr := seedVia(v.reused)
+		sf, okf := seedVia(fresh[v])
+		if okr != okf || sr != sf {
+			o.fail("reaggregated-dkg-seed-differs-from-fresh", fmt.Sprintf("view of party %d: T counted shares give seed %d (%v) with the object aggregated twice and %d (%v) with a fresh object", vi, sr, okr, sf, okf))
+		}
+		// for the model: the aggregated secret is a function of the final dealer set
+		var css []string
+		for _, q := range final {
+			var cs []string
+			for _, c := range q.dealer.VerifMsk() {
+				cs = append(cs, zx(c.GetHexString()))
+			}
+			css = append(css, vh.List(cs))
+		}
+		pkOK := v.reused.GetPublicKeyByID(v.pid)
+		coqR = append(coqR, fmt.Sprintf("((%s, %s), (%s, %s))", vh.List(css), zx(v.pid.GetHexString()), zx(v.reused.Si.GetHexString()), vh.Bool(pkOK.IsEqual(v.reused.Si.GetPublicKey()))))
+		if vi >= 1 {
+			coqR = coqR[:len(coqR)-1] // one party per scenario goes to the model
+		}
+	}
+	o.coq = append(o.coq, fmt.Sprintf("(Build_vzc_case (%s) (0) (0) (0) (%s) ([]) (0) ([]) ([]) ([]) ([]) (None) ([]) (%s))",
+		vh.Nat(T), vh.Str("000"), vh.List(coqR)))
 	return o
 }
 
@@ -647,7 +859,7 @@ func gen(r *vh.Rand, t, n int, wseed uint64) scen {
 
 func key(s scen) string {
 	var b strings.Builder
-	fmt.Fprintf(&b, "%d|%d|%d|%d|%d|%d|%v|%v", s.T, s.N, s.WorldSeed, s.Round, s.Timeout, s.PrevSeed, s.Lens, s.Again)
+	fmt.Fprintf(&b, "%d|%d|%d|%d|%d|%d|%v|%v|%v", s.T, s.N, s.WorldSeed, s.Round, s.Timeout, s.PrevSeed, s.Lens, s.Again, s.Reagg)
 	for _, v := range s.Views {
 		fmt.Fprintf(&b, "|%d:%v:%v", v.Self, v.Evs, v.More)
 	}
@@ -662,7 +874,7 @@ func main() {
 	rep.Rule = "worlds of n miners with real keys and a real DKG of threshold t ((1,1) to (7,10), thorough to (14,20)); per scenario 2-3 miners' views of " +
 		"one round (round, timeout count, previous seed incl. edge values), each fed through the real mc.AddVRFShare with a random subset and order of " +
 		"valid shares mixed with shares for another message, of another key, undecodable, zero, summed, of a later timeout count, duplicates and " +
-		"shares of a node outside the magic block; in two of three views the round is restarted (Round.Restart + IncrementTimeoutCount) after a phase with fewer than t shares or after any phase, and shares for the new timeout count follow; plus contribute scenarios: 3-7 miners publish public polynomials with T-1, T, T+1, T+2 coefficients (also a non-member, a second contribution) through the real minersc contributeMpk, the recorded ones form the DKG and every T-subset (up to 80) and the full set of verified shares must give one seed; non-trivial = at least one share rejected, one view completed and one view (or prefix) below t; " +
+		"shares of a node outside the magic block; in two of three views the round is restarted (Round.Restart + IncrementTimeoutCount) after a phase with fewer than t shares or after any phase, and shares for the new timeout count follow; plus contribute scenarios: 3-7 miners publish public polynomials with T-1, T, T+1, T+2 coefficients (also a non-member, a second contribution) through the real minersc contributeMpk, the recorded ones form the DKG and every T-subset (up to 80) and the full set of verified shares must give one seed; plus re-aggregation scenarios: every party's DKG object is aggregated, the dealer set changes (drop / replace a polynomial / add a party), the same objects are aggregated again and compared with objects built freshly from the final set (key shares, VerifySignature verdicts on genuine and old-key shares, seed of the first T counted shares); non-trivial = at least one share rejected, one view completed and one view (or prefix) below t; " +
 		"distinct by all inputs"
 	cf := &vh.CasesFile{Imports: []string{"Base.Corr", "Model.DKGZ", "Model.VRFAdmit", "Model.VRFZ", "Corr.VRF"}, CaseType: "vzc_case", CheckFn: "vzc_check", Shard: 18}
 
@@ -809,6 +1021,24 @@ func main() {
 		}
 		if rnd.Chance(1, 2) {
 			c.Again = append(c.Again, rnd.Intn(n))
+		}
+		handle(c)
+	}
+	// one DKG object aggregated, the set changed, aggregated again -- against fresh objects
+	for k := 0; k < o.N(10, 60); k++ {
+		n := rnd.Range(3, 6)
+		t := rnd.Range(2, n-1)
+		c := scen{T: t, N: n, WorldSeed: rnd.U64() % 1000000, Round: int64(rnd.Range(2, 5000)), Timeout: rnd.Intn(3), PrevSeed: int64(rnd.U64())}
+		nops := rnd.Range(1, 2)
+		for i := 0; i < nops; i++ {
+			switch rnd.Intn(3) {
+			case 0:
+				c.Reagg = append(c.Reagg, reop{"drop", rnd.Intn(n)})
+			case 1:
+				c.Reagg = append(c.Reagg, reop{"replace", rnd.Intn(n)})
+			default:
+				c.Reagg = append(c.Reagg, reop{"add", 0})
+			}
 		}
 		handle(c)
 	}
